@@ -37,6 +37,9 @@ def program_asts(max_random=None, small=None, rnd_items=None, rnd_nesting=None):
             add(ast)
         for ast in gen.enum_small(4, False):
             add(ast)
+    # pairs (thorough: triples) of depth-varying tokens, with and without a separator in between
+    for ast in gen.enum_depth_pairs(triples=(small == "thorough")):
+        add(ast)
     # seeded random derivations
     if max_random is None:
         max_random = 2000 if t == "quick" else 30000
